@@ -50,6 +50,7 @@ UNARY = ["neg", "negate", "inv", "copy", "floor", "ceil", "num", "den", "round",
 INT2 = ["gcd", "lcm", "fdiv", "mod", "divexact"]
 CTOR = ["ctorw", "ctoru", "ctorwu"]
 MODES = "dapcm"
+FIXED_THEOREM = dict(gcd="gcd_lcm_fixed_exact", lcm="gcd_lcm_fixed_exact", divexact="divexact_fixed_exact")
 INT_RESULT = set(REL + ["sign", "isint", "iszero", "isone"])
 
 
@@ -419,24 +420,30 @@ def run(ctx):
         ctx.count("state:" + states)
 
         # ---- the tie: model vs implementation, exactly --------------------------------------
-        agrees = False
-        if mcur.startswith("E "):
-            e = mcur[2:]
-            if e == "Out_of_fuel":
-                agrees = False
-            elif e == "Abort":
-                agrees = pi == ("CRASH", "6")
-            elif e == "Gmp_divzero":
-                agrees = pi[0] == "CRASH"
-            else:
-                agrees = True          # undefined behaviour / unspecified GMP result: no prediction
-        else:
-            agrees = ires == mcur
-            if agrees and len(mv) > 1 and mv[1] != mcur:
+        def matches(mres):
+            """does the implementation's answer agree with this model answer? (None = no prediction)"""
+            if mres.startswith("E "):
+                e = mres[2:]
+                if e == "Out_of_fuel":
+                    return False
+                if e == "Abort":
+                    return pi == ("CRASH", "6")
+                if e == "Gmp_divzero":
+                    return pi[0] == "CRASH"
+                return None        # undefined behaviour / unspecified GMP result: no prediction
+            return ires == mres
+        mc = matches(mcur)
+        agrees = mc is not False
+        if len(mv) > 1 and mv[1] != mcur:
+            # gcd / lcm / divexact: the code before and after the repair differ on this case
+            mf = matches(mv[1])
+            if mf is True:
+                agrees = True
+                variant.setdefault(op, set()).add("fixed")
+            elif mc is True or (mc is None and pi[0] == "CRASH"):
                 variant.setdefault(op, set()).add("current")
-        if not agrees and len(mv) > 1 and not mv[1].startswith("E ") and ires == mv[1]:
-            agrees = True
-            variant.setdefault(op, set()).add("fixed")
+            else:
+                agrees = False
         if " !wf" in m:
             agrees = False
         # same value and representation (the hash aside): decides whether a defect is the modelled one
@@ -501,7 +508,9 @@ def run(ctx):
         if len(vs) > 1:
             ctx.tie_broken("rat-correspondence:" + op, "implementation follows neither model variant consistently: %s" % sorted(vs))
         else:
-            ctx.note("%s: implementation follows the `%s` variant of the model" % (op, sorted(vs)[0]))
+            ctx.note("%s: implementation follows the `%s` variant of the model (%s)" % (
+                op, sorted(vs)[0], "the repaired code; theorem about it: " + FIXED_THEOREM[op] if "fixed" in vs
+                else "the code before the repair: only the _partial / _refuted theorems apply"))
     ctx.note("distinct values with a hash recorded: %d; correspondence mismatches: %d" % (len(hashes), nbroken))
 
 
